@@ -536,9 +536,16 @@ func HashSetOfValueCopy(vm *Thread, target *HashSetOfValue, source *HashSetOfVal
 		if i == -1 {
 			panic("no room in target hashmap during copy")
 		}
+		existing := target.table[i]
+		if existing.IsUndefined() {
+			// the slot was completely empty
+			target.occupiedSlots++
+			target.elements++
+		} else if existing == DeletedHashSetValue {
+			// a deleted slot gets reused
+			target.elements++
+		}
 		target.table[i] = entry
-		target.occupiedSlots++
-		target.elements++
 	}
 
 	return value.Undefined
